@@ -149,7 +149,7 @@ HOSTILE_COMPOUND: list[Any] = [
     {"title": "x", "k": None}, range(0), range(1, 4), range(-2, 2), (1, 2), [[]], [{}], ["", " "],
     [3, 1, 2, 10, "10", "x"], ["a b", "c"], [{"k": {"n": 1}}, {"k": {"n": 0}}],
     [float("inf"), float("-inf")], [float("inf"), float("nan")], ["inf", "-inf"], [1e308, 1e308, 1e308], [HUGE, 1.5], [{"k": float("inf")}, {"k": float("-inf")}],
-    ["9" * 400], [2**63, -(2**63)], [decimal.Decimal("Infinity"), decimal.Decimal("-Infinity")], [decimal.Decimal("NaN")],
+    ["9" * 400], [2**63, -(2**63)],
 ]
 
 FRIENDLY_STR = ["", "a", "b", "ab", "abc", "foo bar", "Hello", "x y z", "10", "2", "-4", "3.5", " pad ", "a,b", "A-b"]
